@@ -6,6 +6,7 @@ import NPModel.Refine.Fields
 import NPModel.Refine.FieldValues
 import NPModel.Refine.Samples
 import NPModel.Refine.FieldRows
+import NPModel.Refine.FieldSubsets
 namespace NP.C06
 open NP
 variable {α : Type}
@@ -89,5 +90,47 @@ theorem fill_field_lists_row_by_row {c c' : PCol α} {f ty : String} {vs : List 
     c'.rows = List.zipWith (fun r v => r.map fun t => Spec.Table.upsert t f (List.replicate (Row.len r) v)) c.rows vs ∧
     c'.ty = Spec.tyUpsert c.ty f ty :=
   fillFieldLists_rows hc h
+
+/-- **Removing fields** (`pop_fields`, `.nest.without_field`): whenever the call succeeds — for every column in
+    any layout, no storage invariant assumed — the result declares the remaining fields in their old order, every
+    row is the old row without the removed fields (so every remaining field holds the same list in every row), the
+    same rows are missing and the number of rows is unchanged. -/
+theorem pop_fields_row_by_row {c c' : PCol α} {fields : List String}
+    (h : NArr.popFields c fields = .ok c') :
+    c'.ty = (c.ty.filter fun p => ¬ fields.eraseDups.contains p.1) ∧
+    c'.rows = c.rows.map (Row.without fields.eraseDups) ∧
+    NArr.isna c' = NArr.isna c ∧ c'.len = c.len := by
+  obtain ⟨hty, hrows, hv⟩ := popFields_rows c fields c' h
+  exact ⟨hty, hrows, isna_of_valid_eq hv, len_of_valid_eq hv⟩
+
+/-- **Selecting a subset of fields** (`view_fields`, `.nest[[fields]]`, `to_flat(fields)`, `to_lists(fields)`):
+    the result declares the named fields in the order they were named, every row is the old row restricted to them
+    (each under its own name, with its own list), the same rows are missing and the number of rows is unchanged. -/
+theorem view_fields_row_by_row {c c' : PCol α} {fields : List String}
+    (h : NArr.viewFields c fields = .ok c') :
+    c'.ty = fields.filterMap (fun f => c.ty.find? (·.1 == f)) ∧
+    c'.rows = c.rows.map (Row.select fields) ∧
+    NArr.isna c' = NArr.isna c ∧ c'.len = c.len := by
+  obtain ⟨hty, hrows, hv, hlen, _, _⟩ := viewFields_spec c fields c' h
+  exact ⟨hty, hrows, isna_of_valid_eq hv, hlen⟩
+
+/-- … and both keep cleanly stored columns cleanly stored (every observer of C03 goes on reading the rows). -/
+theorem field_subsets_keep_storage_clean {c c' : PCol α} {fields : List String} (hc : c.Clean) :
+    (NArr.popFields c fields = .ok c' → c'.Clean ∧ c'.chunks ≠ []) ∧
+    (NArr.viewFields c fields = .ok c' → c'.Clean ∧ c'.chunks ≠ []) := by
+  constructor
+  · intro h
+    obtain ⟨h1, _, h3⟩ := popFields_clean c hc fields c' h
+    exact ⟨h1, h3⟩
+  · intro h
+    obtain ⟨_, _, _, _, hne, hcl⟩ := viewFields_spec c fields c' h
+    exact ⟨hcl hc, hne⟩
+
+/-- non-vacuity: both calls succeed on the three-chunk sample column (a sliced chunk, an empty chunk, a missing
+    row), and the selection may reorder -/
+example : (NArr.popFields Samples.c1 ["a"]).toBool = true ∧ (NArr.viewFields Samples.c1 ["b", "a"]).toBool = true ∧
+    ((NArr.viewFields Samples.c1 ["b", "a"]).toOption.map (·.rows)) =
+      some [some [("b", [7, 8]), ("a", [1, 2])], none, some [("b", [6]), ("a", [3])], some [("b", [4]), ("a", [5])]] := by
+  decide
 
 end NP.C06
